@@ -735,12 +735,12 @@ cls(
 cls(
     "DesignSpace",
     fields={"sources": List(Ref("Source")), "default": Ref("Source")},
-    derived={"allocated": _allocated_as("MathObj"), "allocated_locations": _allocated_as("NormLocation")},
+    derived={"allocated": _allocated_as("MathObj"), "allocated_locations": _allocated_as("Location")},
     views={"allocated": lambda o: _Everything(), "allocated_locations": lambda o: _Everything()},
     notes="DesignSpaceDocument: sources in document order, `default` = the default source (findDefault); `allocated` = the set of "
     "objects that currently exist (specification-only view)",
 )
-cls("NormLocation", fields={"pairs": KEY}, views={"pairs": lambda d: list(d.items())}, notes="the NEW dict returned by normalizeLocation")
+# (the dict returned by normalizeLocation is a Location object like any other: Variator.from_masters / instance_at take it as such)
 
 
 @specfn(KEY, opaque=True, pairs=KEY, bounds=BOUNDS)
@@ -759,7 +759,7 @@ def _normalize_location(ex, st, args, kwargs, node):
     loc, bounds = args
     if kwargs:
         raise Unsupported("normalizeLocation keyword arguments", node)
-    r = ex.new_object(st, "NormLocation")
+    r = ex.new_object(st, "Location")
     f = ex.spec_decl(api_specfn("norm_pairs"))
     ex.write_field(st, r, "pairs", Val(KEY, f(lift(ex.read_field(st, loc, "pairs")), lift(bounds, BOUNDS))), node)
     return r
@@ -832,8 +832,8 @@ def _collect_contract(fn, ctor_clause, extra_locals=None):
         "ufo2ft.instantiator:" + fn,
         props=["C19"],
         params={"designspace": Ref("DesignSpace"), "axis_bounds": BOUNDS},
-        returns=List(Tuple(Ref("NormLocation"), Ref("MathObj"))),
-        requires=[f"all(not fresh({_S}[a]) for a in range(len({_S})))"],
+        returns=List(Tuple(Ref("Location"), Ref("MathObj"))),
+        requires=[f"all(not fresh({_S}[a]) and not fresh({_S}[a].location) for a in range(len({_S})))"],
         ensures={
             # exactly the sources with font-level data: layer-only (sparse) sources are skipped, the default is always kept
             "count": "len(result) == " + _NK.format(f"len({_S})"),
@@ -844,7 +844,7 @@ def _collect_contract(fn, ctor_clause, extra_locals=None):
             "new-objects": "all(fresh(result[k][0]) and fresh(result[k][1]) for k in range(len(result)))",
         },
         canaries={"keeps-everything": f"len(result) == len({_S})"},
-        locals={"locations_and_masters": List(Tuple(Ref("NormLocation"), Ref("MathObj"))), **(extra_locals or {})},
+        locals={"locations_and_masters": List(Tuple(Ref("Location"), Ref("MathObj"))), **(extra_locals or {})},
         loops={
             "for source in designspace.sources": Loop(
                 index="i",
@@ -1078,7 +1078,7 @@ def _mathglyph(ex, st, args, kwargs, node):
 
 
 LAYERS = List(Tuple(Ref("Location"), Ref("Layer")))
-cls("AllocView", derived={"allocated": _allocated_as("MathObj"), "allocated_locations": _allocated_as("NormLocation")},
+cls("AllocView", derived={"allocated": _allocated_as("MathObj"), "allocated_locations": _allocated_as("Location")},
     notes="specification-only handle on the set of currently existing objects (used in loop invariants)")
 _ALLOC_VIEW = Val(Ref("AllocView"), z3.Const("alloc_view", T.RefSort))
 
@@ -1131,7 +1131,7 @@ contract(
     "ufo2ft.instantiator:collect_glyph_masters",
     props=["C19"],
     params={"source_layers": LAYERS, "glyph_name": STR, "axis_bounds": BOUNDS, "default_source_idx": INT},
-    returns=List(Tuple(Ref("NormLocation"), Ref("MathObj"))),
+    returns=List(Tuple(Ref("Location"), Ref("MathObj"))),
     requires=[
         f"0 <= {_DI} and {_DI} < len(source_layers)",  # Instantiator.__post_init__ computes it as an index into source_layers
         "all(not fresh(source_layers[a][0]) and not fresh(source_layers[a][1]) for a in range(len(source_layers)))",
@@ -1160,7 +1160,7 @@ contract(
         + _HAS.format("a") + "])",
     },
     canaries={"never-filters": "len(result) == " + _NH.format("len(source_layers)"), "always-all-layers": "len(result) == len(source_layers)"},
-    locals={"locations_and_masters": List(Tuple(Ref("NormLocation"), Ref("MathObj"))), "default_glyph_empty": BOOL, "other_glyph_empty": BOOL},
+    locals={"locations_and_masters": List(Tuple(Ref("Location"), Ref("MathObj"))), "default_glyph_empty": BOOL, "other_glyph_empty": BOOL},
     loops={
         "for (i, (location, source_layer)) in enumerate(source_layers)": Loop(
             index="j",
